@@ -262,6 +262,8 @@ def line_classes(fmt, lines) -> list[str]:
 # damage
 
 ADD_TOKENS = ["1", "7", "12", "X", "1.5", "C.3", "zz"]
+FOREIGN_CHARS = ["\x00", "\ufeff", "\u200b", "\x7f", "\x01", "\u00ad"]
+BAD_SYMBOLS = ["@@", "?", "C7", "Xq", "0", "Zz", "Jj", "C@", "--", "Qq.3"]
 BAD_NUMBERS = ["abc", "1.2.3", "--1", "1,5", "", "0x1p", "1e", "?", "1.0.0e5", "12a"]
 
 
@@ -271,10 +273,15 @@ def _join(tokens, nl):
 
 def corrupt_token(fmt, lines, classes, rng):
     """one seeded token corruption -> (new_lines, prov, info) or None if the draw is not applicable"""
-    op = rng.choice(["count-digit", "count-digit", "remove-field", "add-field", "bad-coordinate", "coord-digit"])
+    op = rng.choice(["count-digit", "count-digit", "remove-field", "add-field", "bad-coordinate", "coord-digit",
+                     "foreign-char", "foreign-char", "bad-symbol"])
     if op == "count-digit":
         want = ("count",) if fmt == "xyz" else ("hdr-counts",)
     elif op in ("bad-coordinate", "coord-digit"):
+        want = ("atom",)
+    elif op == "foreign-char":
+        want = ("count", "atom") if fmt == "xyz" else ("hdr-counts", "atom", "bond")
+    elif op == "bad-symbol":
         want = ("atom",)
     else:
         want = ("count", "atom") if fmt == "xyz" else ("hdr-counts", "atom", "bond", "sect-UNITY_ATOM_ATTR")
@@ -297,6 +304,25 @@ def corrupt_token(fmt, lines, classes, rng):
         p = rng.choice(digits)
         new = rng.choice([d for d in "0123456789" if d != tok[k][p]])
         tok[k] = tok[k][:p] + new + tok[k][p + 1:]
+        info["field"] = k
+    elif op == "foreign-char":
+        # one character of a numeric token is overwritten by (or one is slipped in as) a character that is neither
+        # data nor white space: a NUL of a damaged block, a byte-order mark, a zero-width space, a control character
+        numeric = [k for k, t in enumerate(tok) if any(ch.isdigit() for ch in t) and t.lstrip("+-")[:1].isdigit()]
+        if not numeric:
+            return None
+        k = rng.choice(numeric)
+        ch = rng.choice(FOREIGN_CHARS)
+        p = rng.randrange(len(tok[k]) + 1)
+        tok[k] = tok[k][:p] + ch + (tok[k][p + 1:] if rng.random() < 0.6 and p < len(tok[k]) else tok[k][p:])
+        info["field"] = k
+        info["char"] = "U+%04X" % ord(ch)
+    elif op == "bad-symbol":
+        # the element column (xyz) / atom type column (mol2) is garbled into something that names no element
+        k = 0 if fmt == "xyz" else 5
+        if len(tok) <= k:
+            return None
+        tok[k] = rng.choice(BAD_SYMBOLS)
         info["field"] = k
     elif op == "remove-field":
         k = rng.randrange(len(tok))
